@@ -61,7 +61,7 @@ PROPS = {
     technique='bounded exhaustive enumeration of all API histories (constructions, operations incl. image/reachability/saturation, edge copy/assign/self-assign/release, cache clears, reference-count width macros, churn, forest destruction) up to a depth bound on the real library (release and ASan builds), with an exact recount of every reference and cache count and a leak probe after every history',
     rule='every history over the alphabet up to the depth bound per (kind, shape, policy); oracle = A11 exact incoming-count recount (parents + registered dd_edges + nodes under construction), A12 cache recount, A13, register read-back, then release-everything leak probe (every surviving node must be reachable from a still-registered edge) and rebuild of the catalogue. non-trivial = length >= 2',
     bounds={'quick': '5 kinds + 4 relation scenarios x 5 policies (optimistic, pessimistic, never, sparse+grid+pessimistic, full+heap), alphabet 50-60 symbols incl. DUP(254..65537) and CHURNUP(600): depth 3 for optimistic/pessimistic on MT bool sets, MT bool identity relations and the saturation scenario, depth 2 elsewhere; ASan build depth 2 on those',
-            'thorough': 'depth 4 where quick has 3, depth 3 elsewhere; ASan depth 3'},
+            'thorough': 'depth 3: MT bool sets and MT bool identity relations under all 5 policies, MT int / EV+ sets and EV* relations under optimistic and pessimistic, the relation (image/reachability/saturation) scenario under optimistic/pessimistic; depth 4 on identity relations (optimistic, four-function catalogue); ASan depth 3 on the deep families (sized from a measured run: depth 4 on every deep family needed ~80 CPU-hours)'},
     text='Exhaustive over histories to the depth bound; exact reference and cache recount of every forest after every history, leak probe, and an ASan build for use of reclaimed node memory.',
     note='bounded: depth 3/4 with macro symbols for counter widths and table growth; error paths excluded (C16)',
     design_ref='DESIGN.md 4/C06',
